@@ -84,8 +84,13 @@ def run_impl(data, ops, full_bytes, size):
                 outs.append("ValueError")
                 continue
             got = pts.array.tobytes()
-            outs.append(("blk", got, len(pts)))
+            outs.append(("blk", got, len(pts), pts))
         cur = rd.points_read
+        # every returned record set is kept until the end of the history: what a step returned must not be altered by later steps
+        for i, o in enumerate(outs):
+            if isinstance(o, tuple):
+                later = o[3].array.tobytes()
+                outs[i] = ("blk", o[1], o[2]) if later == o[1] else ("blk", later, o[2], "altered")
     return outs, cur
 
 
@@ -139,7 +144,9 @@ def run(ck):
         for i, (op, o) in enumerate(zip(ops, outs)):
             want = spec.apply(op)
             if isinstance(o, tuple):
-                _, got, n = o
+                if len(o) == 4:
+                    ck.fail(f"step {i} ({tok(op)}): the records it returned were altered by later calls on the reader", inp)
+                _, got, n = o[:3]
                 if want.startswith("slice"):
                     _, a, l = want.split(":")
                     a, l = int(a), int(l)
